@@ -16,6 +16,8 @@ package scen
 //  5. (driver) crash-capable race reports when run under -race
 
 import (
+	"reflect"
+	"hash/fnv"
 	"encoding/json"
 	"fmt"
 	"math/rand"
@@ -306,8 +308,14 @@ type c05Rec struct {
 }
 
 func c05Ent(id, tag string, idx int) model.Ent {
-	return model.Ent{ID: id, Props: map[string]any{gen.NsP + "op": tag, gen.NsP + "i": float64(idx)}, Refs: map[string]any{}}
+	// every write points at one of five targets, chosen by its tag: two writes of one entity usually differ in it
+	h := fnv.New32a()
+	h.Write([]byte(tag))
+	return model.Ent{ID: id, Props: map[string]any{gen.NsP + "op": tag, gen.NsP + "i": float64(idx)},
+		Refs: map[string]any{c05Pred: fmt.Sprintf("%st%d", gen.NsA, h.Sum32()%5)}}
 }
+
+const c05Pred = gen.NsR + "to"
 
 func c05Conc(ctx *Ctx) error {
 	r := rand.New(rand.NewSource(ctx.Seed))
@@ -530,8 +538,17 @@ loop:
 		ctx.Out.Stat("concurrent_feed_readers", int64(nReaders))
 		ctx.Out.Stat("concurrent_feed_reader_calls", int64(nCalls))
 	}
-	if prop == "C01" || prop == "C05" || prop == "C06" {
+	if prop == "C01" || prop == "C05" || prop == "C06" || prop == "C03" || prop == "C04" {
 		c05FinalState(ctx, id, prop, core, c)
+	}
+	if prop == "C03" || prop == "C05" {
+		c05FinalRelations(ctx, id, prop, core, c)
+	}
+	if prop == "C04" {
+		if msg := crossIndexInvariant(core); msg != "" {
+			ctx.Out.Viol(id, "C04", "cross-index-"+strings.SplitN(msg, ":", 2)[0]+"-after-concurrent-writers", "raw key scan at the final quiescent point of a concurrent history: "+msg, nil, nil, nil)
+		}
+		ctx.Out.Stat("c04_cross_index_scans_after_concurrent_histories", 1)
 	}
 	if prop == "C06" {
 		c05AsOfReads(ctx, id, core, c, recs, mon)
@@ -1026,4 +1043,67 @@ func firstRecDiff(a, b []obs.Rec) int {
 		return n
 	}
 	return -1
+}
+
+// c05FinalRelations (C03 under concurrency): at the final quiescent point the relation answers of every dataset
+// equal the graph of the last committed version of each entity (commit order = feed order). Outgoing with the
+// wildcard, incoming with the concrete predicate, both scoped to the one dataset (outside the open C03 findings).
+func c05FinalRelations(ctx *Ctx, id, prop string, core *hub.Core, c c05Case) {
+	st := core.Store
+	n := 0
+	for _, d := range c.Datasets {
+		ds := core.Dsm.GetDataset(d)
+		if ds == nil {
+			continue
+		}
+		feed, _, err := obs.Feed(st, ds, 0, nil, false)
+		if err != nil {
+			continue
+		}
+		lastOf := map[string]*obs.Rec{}
+		for i := range feed {
+			lastOf[feed[i].ID] = &feed[i]
+		}
+		incoming := map[string]map[model.Pair]bool{}
+		for u, f := range lastOf {
+			want := map[model.Pair]bool{}
+			if !f.Deleted {
+				for p, tv := range f.Refs {
+					for _, t := range model.RefTargets(tv) {
+						want[model.Pair{Pred: p, Other: t}] = true
+						if incoming[t] == nil {
+							incoming[t] = map[model.Pair]bool{}
+						}
+						incoming[t][model.Pair{Pred: p, Other: u}] = true
+					}
+				}
+			}
+			r, err := obs.Related(st, u, "*", false, []string{d}, 0)
+			if err != nil {
+				continue
+			}
+			n++
+			if !reflect.DeepEqual(model.PairList(r.Set()), model.PairList(want)) {
+				ctx.Out.Viol(id, prop, "relations-vs-last-write", fmt.Sprintf("dataset %s: outgoing relations of %s differ from the references of its last committed write %q", d, u, tagOf(f)), model.PairList(want), model.PairList(r.Set()), nil)
+				return
+			}
+		}
+		for k := 0; k < 5; k++ {
+			t := fmt.Sprintf("%st%d", gen.NsA, k)
+			r, err := obs.Related(st, t, c05Pred, true, []string{d}, 0)
+			if err != nil {
+				continue
+			}
+			n++
+			want := incoming[t]
+			if want == nil {
+				want = map[model.Pair]bool{}
+			}
+			if !reflect.DeepEqual(model.PairList(r.Set()), model.PairList(want)) {
+				ctx.Out.Viol(id, prop, "incoming-relations-vs-last-writes", fmt.Sprintf("dataset %s: incoming %s relations of %s differ from the entities whose last committed write refers to it", d, c05Pred, t), model.PairList(want), model.PairList(r.Set()), nil)
+				return
+			}
+		}
+	}
+	ctx.Out.Stat("final_relation_queries_vs_feed", int64(n))
 }
